@@ -1004,7 +1004,7 @@ class Media(productmd.common.MetadataBase):
         self._assert_type("totaldiscs", list(six.integer_types) + [type(None)])
 
     def serialize(self, parser):
-        if not self.discnum and not self.totaldiscs:
+        if self.discnum is None and self.totaldiscs is None:
             return
         self.validate()
         parser.add_section(self._section)
